@@ -1,4 +1,4 @@
-CONSTANTS Ns = {1,2,3,4,5,6,7,8,9,10,11,12,13,14,15,16,17,18,19,20,21,22,23,24,25,26,27,28,29,30,31,32,33,34,35,36,40,48,55,64,89,128}  Pats = {1,2,3,4,5,6,7,8}
+CONSTANTS Ns = {1,2,3,4,5,6,7,8,9,10,11,12,13,14,15,16,17,18,19,20,21,22,23,24,25,26,27,28,29,30,31,32,33,34,35,36,40,48,55,64,89,128}  Pats = {1,2,3,4,5,6,7,8}  Engines <- Vector
 INIT Init
 NEXT Next
 VIEW View
